@@ -605,6 +605,11 @@ func PreprocessDeclarationsPrelude(baseURL string, declarations []pa.Compound, p
 			if err != nil {
 				return nil, err
 			}
+			// keep source order: the declarations seen so far come before the nested rule
+			if len(ownDecls) != 0 {
+				out = append(out, KeyedDeclarations{selectors, ownDecls})
+				ownDecls = nil
+			}
 			out = append(out, contents...)
 		}
 
